@@ -1103,7 +1103,13 @@ func (env *Env) specCall(sf *SpecFunc, args []Value, pol int) Value {
 	}
 	for _, rk := range sf.Reads {
 		keys := []string{rk}
-		if strings.HasPrefix(rk, "elems(") && strings.HasSuffix(rk, ")") {
+		if strings.HasPrefix(rk, "ghost(") && strings.HasSuffix(rk, ")") {
+			g, ok := eng.contracts.Ghosts[rk[6:len(rk)-1]]
+			if !ok {
+				cfail("spec %s: reads %s: no such ghost variable", sf.Name, rk)
+			}
+			keys = []string{regKey("GH:"+g.Name, eng.ghostSort(g))}
+		} else if strings.HasPrefix(rk, "elems(") && strings.HasSuffix(rk, ")") {
 			// elems(p) for a slice parameter p: only the backing array of p
 			isParam := false
 			for i, p := range sf.Params {
